@@ -73,6 +73,9 @@ type AsTarget struct{ From string }
 
 func (e *AsTarget) Error() string { return "as-target from " + e.From }
 
+// AsTargetLeaf returns the AsTarget type itself as an error value (a node
+// that is directly assignable to the target AsLeaf/AsW convert to).
+
 // AsLeaf has an As method, registered.
 type AsLeaf struct{ Msg string }
 
